@@ -297,7 +297,8 @@ def history_oracle(scen, params, recs):
 
 def run_stress(seed, rounds, timeout=600, race=False):
     env = vlib.go_env()
-    p = subprocess.run([vlib.ELKH + ("-race" if race else ""), "systress", str(seed), str(rounds)],
+    p = subprocess.run([vlib.ELKH + ("-race" if race else ""), "systress", str(seed), str(rounds)]
+                       + (["noearlyclose"] if race else []),
                        stdout=subprocess.PIPE, stderr=subprocess.PIPE,
                        text=True, errors="replace", timeout=timeout, env=env)
     out = [l for l in p.stdout.split("\n") if l.startswith("H ")]
